@@ -65,19 +65,84 @@ def err_aggs(b, name):
     return out
 
 
+WRAPPED = {}      # (body path, guard block) -> {"err": the wrapper's mismatch edge builds the named error, "tail": bool}
+
+
+def wrapper_guards(facts, b, name_rx, err_name=None):
+    """Comparisons made through a small helper of the same crate, `helper(&a, &b, ..)?` or `helper(&a, &b, ..)` as the
+    function's value: the helper compares two of its parameters with a call matching name_rx, its mismatch edge reaches
+    no Ok and every Ok of it lies behind the pass edge.  Returned in the shape of guards(): the `?` Continue / Break
+    edges (or, for a tail call, the block after the call) stand for the pass / mismatch edges, the call node carries the
+    caller's two operands.  Also returns the blocks that act as an Ok of `b` (after a tail call)."""
+    from rules.C17 import variant_arms
+    out, pseudo_ok = [], []
+
+    def bare(e):
+        e = flow.strip_casts(e)
+        while e[0] in ("ref", "call") and (e[0] == "ref" or (re.search(r"(Deref::deref|Borrow::borrow)$", e[1]) and e[2])):
+            e = flow.strip_casts(e[1] if e[0] == "ref" else e[2][0])
+        return e
+    cf = None
+    for cb, t in b.calls():
+        fn = F.callee(t)[0] or ""
+        w = facts.bodies.get(fn)
+        if w is None or w.coroutine or len(w.blocks) > 40 or fn.split("::")[0] != b.path.lstrip("<").split("::")[0]:
+            continue
+        gw = guards(w, name_rx)
+        if len(gw) != 1:
+            continue
+        sw_, e_, ed_, call_ = gw[0]
+        ops = [bare(x) for x in call_[2][:2]]
+        if len(ops) != 2 or not all(o[0] == "arg" and len(o) == 2 for o in ops) or ops[0] == ops[1]:
+            continue
+        wd = w.dominators()
+        oks_w = ok_blocks(w)
+        if not oks_w or set(oks_w) & w.reachable(ed_[1]) or not all(flow.dominates(wd, ed_[0], o) for o in oks_w):
+            continue
+        has_err = err_name is None or any(x in w.reachable(ed_[1]) for x in err_aggs(w, err_name))
+        a = tuple(flow.expr_of(b, t["args"][o[1] - 1]) for o in ops)
+        node = ("call", "wrapper:" + call_[1], a)
+        cf = cf if cf is not None else variant_arms(b, "std::ops::ControlFlow", facts)
+        hit = None
+        dl0 = t["d"][0] if t.get("d") else None
+        al0 = flow.local_aliases_fwd(b, dl0) if dl0 is not None else set()
+        for sw, pl, arms in cf:
+            # the ControlFlow value matched here is Try::branch(<this call's result>)
+            ds = [d for _, idx, d in b.defs().get(pl[0], []) if idx == "t" and d.get("k") == "call" and (F.callee(d)[0] or "").endswith("Try::branch")]
+            if ds and "Continue" in arms and "Break" in arms and F.op_local(ds[0]["args"][0]) in al0:
+                hit = (sw, node, (arms["Continue"], arms["Break"]), node)
+        if hit is not None:
+            out.append(hit)
+            WRAPPED[(b.path, hit[0])] = {"err": has_err, "tail": False}
+            continue
+        # the helper's verdict is the function's own value
+        al = al0
+        tail = t.get("d") == [0] or any(s_["p"] == [0] and ((s_["r"]["k"] == "use" and F.op_local(s_["r"]["o"]) in al) or (s_["r"]["k"] == "agg" and any(F.op_local(o) in al for o in s_["r"]["ops"]))) for _, _, s_ in b.iter_assigns())
+        nxt = b.succs(cb)
+        if tail and len(nxt) == 1:
+            out.append((cb, node, (nxt[0], None), node))
+            pseudo_ok.append(nxt[0])
+            WRAPPED[(b.path, cb)] = {"err": has_err, "tail": True}
+    return out, pseudo_ok
+
+
 def verdict_guard(ctx, rule, inst, b, name_rx, mismatch_is_nonzero, err_name, min_guards=1, what=""):
     """From the mismatch edge of every guard matching name_rx no `Ok` return may be reachable and the
     error `err_name` must be reachable."""
     gs = guards(b, name_rx)
+    if len(gs) < min_guards and mismatch_is_nonzero:
+        wg, wok = wrapper_guards(ctx.facts(), b, name_rx, err_name)
+        gs = gs + [(sw, e, (ed[0], ed[1]), call) for sw, e, ed, call in wg]
     if len(gs) < min_guards:
         ctx.ob(rule, f"{inst}:guards", False, f"expected >= {min_guards} comparison(s) {name_rx} gating the result, found {len(gs)} (a check was dropped)", site_of(b))
         return gs
     oks = set(ok_blocks(b))
     for k, (sw, e, ed, call) in enumerate(gs):
         bad = ed[1] if mismatch_is_nonzero else ed[0]
-        reach = b.reachable(bad)
+        wi = WRAPPED.get((b.path, sw)) if call[1].startswith("wrapper:") else None
+        reach = b.reachable(bad) if bad is not None else set()
         leak = sorted(oks & reach)
-        has_err = any(x in reach for x in err_aggs(b, err_name))
+        has_err = wi["err"] if wi is not None else any(x in reach for x in err_aggs(b, err_name))
         ok = not leak and has_err
         ctx.ob(rule, f"{inst}:guard#{k}", ok,
                f"{what or 'mismatch'} => Err({err_name}), never Ok" if ok else (f"on a failed comparison the function can still return Ok (polarity flipped or result ignored)" if leak else f"a failed comparison does not produce Err({err_name})"),
@@ -948,7 +1013,10 @@ def shuffle_verify_path(ctx, facts, rule):
         d = b.dominators()
         gs = guards(b, r"ConstantTimeEq::ct_ne$|PartialEq::ne$")
         oks = ok_blocks(b)
-        bad = [o for o in oks if not all(flow.dominates(d, ed[0], o) for _, _, ed, _ in gs)]
+        if len(gs) < nmin:
+            wg, wok = wrapper_guards(facts, b, r"ConstantTimeEq::ct_ne$|PartialEq::ne$", "ShuffleValidationFailed")
+            gs, oks = gs + wg, oks + wok
+        bad = [o for o in oks if not all(flow.dominates(d, ed[0], o) or ed[0] == o for _, _, ed, _ in gs)]
         good = bool(oks) and len(gs) >= nmin and not bad
         ctx.ob(rule, f"{h}:ok-behind-all-comparisons", good, f"every Ok lies behind the pass edge of all {len(gs)} comparisons" if good else f"{h} can return Ok without passing every hash comparison (early return / bypass)", site_of(b, bad[0]) if bad else site_of(b))
     b3 = async_body(facts, base + "h3_verify")
